@@ -1,7 +1,7 @@
 CONSTANTS
   Kinds = {"named_struct", "tuple_struct", "unit_struct", "enum", "union", "generic_struct", "alias", "const", "struct_len_if", "struct_len_block", "struct_len_index", "alias_union_path", "const_union_path", "named_struct_via_macro"}
   OuterArgs = {"bare", "swift"}
-  Helpers = {"skip", "serialized_as", "stacked", "stacked_apart"}
+  Helpers = {"skip", "serialized_as", "stacked", "stacked_apart", "lang"}
   Mixes = {"none", "serde", "cfg_attr", "docs_after"}
   MaxPos = 4
 INIT Init
